@@ -125,6 +125,8 @@ func (l *tcp) Serve() error {
 			if cn, er = l.listener.Accept(); er == nil {
 				select {
 				case <-l.quit:
+					// accepted while the listener was being closed: nobody will serve it
+					_ = cn.Close()
 					er = types.ErrClosed
 					return
 				default:
